@@ -56,6 +56,11 @@ def gen_profile(rng, focus=None):
     p["same_step"] = rng.random() < 0.4  # equal work amounts so linked tasks hit zero together
     p["shuffle_list"] = rng.random() < 0.35  # workflow.task_list not in dependency order
     p["dup_names"] = rng.random() < 0.12  # two tasks share a name (skills are keyed by task name)
+    p["multi_edge"] = rng.random() < 0.15  # the same pair of tasks linked by two dependencies of different kinds
+    p["multi_parent"] = rng.random() < 0.25  # (nested products) a component with two parents
+    p["reg_shuffle"] = rng.random() < 0.3  # teams/workplaces register their targets in another order than the organization lists
+    p["ctor_targets"] = rng.random() < 0.1  # a team gets its targets through the constructor (registered on the team side only)
+    p["assign_style"] = rng.random() < 0.15  # workers built with defaults, skill maps filled item by item
     p["assign_list"] = rng.random() < 0.15  # workflow built with `wf.task_list = [...]` (parent_workflow set lazily)
     p.update(focus)
     if not p["comps"]:
@@ -108,6 +113,11 @@ def gen_model(rng, p, n_tasks=None):
                 pr = 0.6 if i == 0 or j == n - 1 else 0.05
             if rng.random() < pr:
                 deps.append([i, j, rng.choice(p["kinds"])])
+    if p.get("multi_edge") and deps and len(p["kinds"]) > 1:
+        a_, b_, k_ = rng.choice(deps)
+        others = [k for k in p["kinds"] if k != k_]
+        if others:
+            deps.append([a_, b_, rng.choice(others)])
     comps = []
     if p["comps"]:
         nc = rng.randint(1, 4)
@@ -118,6 +128,12 @@ def gen_model(rng, p, n_tasks=None):
                 if rng.random() < 0.6:
                     par = rng.randrange(0, k)
                     comps[par]["children"].append(k)
+            if p.get("multi_parent"):
+                for k in range(2, nc):
+                    pars = [i for i in range(k) if k in comps[i]["children"]]
+                    cand = [i for i in range(k) if i not in pars]
+                    if pars and cand and rng.random() < 0.5:
+                        comps[rng.choice(cand)]["children"].append(k)
         for t in tasks:
             if rng.random() < 0.65:
                 if t.get("auto") and not p["auto_comp"]:
@@ -229,6 +245,14 @@ def gen_model(rng, p, n_tasks=None):
                 if rng.random() < 0.35:
                     f["abs"] = gen_absence(rng, 14, rng.randint(1, 4))
     m = {"tasks": tasks, "deps": deps, "teams": teams, "comps": comps, "wps": wps}
+    if p.get("reg_shuffle"):
+        reg = [["team", i] for i in range(len(teams))] + [["wp", i] for i in range(len(wps))]
+        rng.shuffle(reg)
+        m["reg_order"] = reg
+    if p.get("ctor_targets") and teams:
+        rng.choice(teams)["ctor_targets"] = True
+    if p.get("assign_style"):
+        m["assign_style"] = True
     if p.get("dup_names") and n > 1:
         a, b = rng.sample(range(n), 2)
         tasks[b]["name"] = tasks[a].get("name", tasks[a]["id"])
@@ -371,6 +395,12 @@ def gen_feasible(rng, p):
             w["skills"][t["id"]] = rng.choice(SKILL)
             if t.get("fixw") is not None:
                 t["fixw"] = sorted(set(t["fixw"]) | {w["id"]})
+    if m.get("reg_order"):
+        reg = [["team", i] for i in range(len(m["teams"]))]
+        rng.shuffle(reg)
+        m["reg_order"] = reg
+    for tm in m["teams"]:
+        tm.pop("ctor_targets", None)  # the feasibility construction edits team targets after the fact; keep them two-sided
     return m
 
 
